@@ -93,6 +93,22 @@ func c10Corpus(thorough bool) []c10Req {
 			out = append(out, c10Req{Name: "optiontwin/" + bn + "-" + o + "/A", Body: J(a)}, c10Req{Name: "optiontwin/" + bn + "-" + o + "/B", Body: J(withBiases(other, []M{b}))})
 		}
 	}
+	// reference-criterion strategies other than the default, shared by concealment, mixing and the anchoring applier that
+	// adds a criterion: three requests per strategy, each with a seed no other request of the corpus uses
+	for si, strat := range []string{"randomUniform", "randomWeighted"} {
+		for bi, bn := range []string{"criteriaConcealment", "criteriaMixing", "anchoringNew"} {
+			p := M{"referenceCriterionType": strat, "newCriterionRandomSeed": 21 + 3*si + bi, "randomSeed": 2}
+			var b M
+			if bn == "anchoringNew" {
+				b = anchoringBias(2, false, false)
+				asM(asM(b["props"])["applier"])["params"] = p
+			} else {
+				b = bias(bn, p)
+			}
+			root := rootRequest([]string{"weightedSum", "owa", "majorityHeuristic"}[bi], true, false)
+			out = append(out, c10Req{Name: fmt.Sprintf("optiontwin/%s-%sRef/%c", bn, strat[6:9], 'A'+bi), Body: J(withBiases(root, []M{b}))})
+		}
+	}
 	// ELECTRE III with the distillation function left to its default / declared (a valid one, a rejected one): what one
 	// request declares must not reach the one that declares nothing
 	{
